@@ -20,7 +20,8 @@ Helpers of the group-F rules (C22 C24 C25 C27 C30 C32 C39 C40): deciding *roles*
     .elements(e, nid)        how a collection value is populated, whether by a comprehension, a
                              literal, or an empty literal + append/add/subscript-store in loops
   canon(test)        comparison normalised to its positive form: `a is not b` -> (`a is b`, False)
-  atoms(test, pol)   facts established by a compound test evaluating to pol (canonical atoms)
+  atoms(test, pol)   facts established by a compound test evaluating to pol (canonical atoms;
+                     a disjunction known true / conjunction known false is kept as one fact)
 
 Nothing is evaluated; everything is read from the ast / CFG.
 """
@@ -55,6 +56,8 @@ def atoms(test, polarity=True):
       if (isinstance(e.op, ast.And) and pol) or (isinstance(e.op, ast.Or) and not pol):
         for v in e.values:
           go(v, pol)
+      else:
+        out.append((e, pol))     # `a or b` true / `a and b` false: known only as a whole
       return
     a, p = canon(e)
     out.append((a, pol if p else not pol))
@@ -188,13 +191,15 @@ class Res(object):
     return list(reversed(out))
 
   # ------------------------------------------------------------------ reaching definitions
-  def reaching(self, nid, name):
-    """(def node ids, reaches_entry) for `name` on entry to node nid."""
-    key = (nid, name)
+  def reaching(self, nid, name, after=None):
+    """(def node ids, reaches_entry) for `name` on entry to node nid; with after=<node ids>: as
+    seen right after those nodes completed (e.g. on entry to a loop from outside it)."""
+    key = (nid, name) if after is None else (tuple(sorted(after)), name, "after")
     if key in self._reach:
       return self._reach[key]
     defs = self.defs.get(name, set())
-    out, seen, work, entry = set(), set(), list(self.cfg.pred[nid]), False
+    out, seen, work, entry = set(), set(), list(self.cfg.pred[nid] if after is None else after), \
+        False
     while work:
       x = work.pop()
       if x in seen:
@@ -239,12 +244,13 @@ class Res(object):
           return ast.Subscript(value=s.value, slice=ast.Constant(value=i), ctx=ast.Load())
     return None
 
-  def binding(self, nid, name):
-    """What `name` stands for on entry to nid: (value expr, node id where that value is evaluated),
-    or None when it is not a single plain assignment / an if-else pair of them."""
+  def binding(self, nid, name, after=None):
+    """What `name` stands for on entry to nid (or right after nodes `after`): (value expr, node
+    id where that value is evaluated), or None when it is not a single plain assignment / an
+    if-else pair of them."""
     if name in self.params and not self.defs.get(name):
       return None
-    defs, entry = self.reaching(nid, name)
+    defs, entry = self.reaching(nid, name, after)
     for m in self.du.muts.get(name, ()):
       if self.reaching(m, name)[0] & defs:
         return None      # a container mutated in place is an object, not a value: keep its name
@@ -431,7 +437,8 @@ class Res(object):
       return False
     starts = {self.cfg.entry.id}
     for nm in names:
-      for k in self.defs.get(nm, ()):
+      # rebinding a local the test mentions, or changing it in place, forgets the fact
+      for k in set(self.defs.get(nm, ())) | set(self.du.muts.get(nm, ())):
         starts |= set(self.cfg.succ[k])
     seen, todo = set(starts), list(starts)
     while todo:
@@ -548,7 +555,8 @@ class Res(object):
         elif c.func.attr == "extend" and len(c.args) == 1:
           sub = self.elements(c.args[0], mn.id)
           if sub is None:
-            return None
+            # an opaque sequence (e.g. the result of a call) spliced in as a whole
+            sub = [Element(c.args[0], [], [], mn, c, "extend")]
           for x in sub:
             x.loops = loops + x.loops
           out += sub
@@ -807,3 +815,17 @@ def absent(world, fn, what):
                         "followed (%s)" % (fn.qualname, what, ", ".join(sorted({short(c.func, 40)
                                                                               for c in hc}))))
   return False
+
+
+def iterations(fnode):
+  """(iterable, target, body) of every for-loop and comprehension clause of a function: body is
+  the list of ast nodes evaluated per element (loop body statements / element expressions)."""
+  out = []
+  for n in ast.walk(fnode):
+    if isinstance(n, (ast.For, ast.AsyncFor)):
+      out.append((n.iter, n.target, list(n.body), n))
+    elif isinstance(n, (ast.ListComp, ast.SetComp, ast.GeneratorExp, ast.DictComp)):
+      body = [n.key, n.value] if isinstance(n, ast.DictComp) else [n.elt]
+      for i, g in enumerate(n.generators):
+        out.append((g.iter, g.target, body + [c for gg in n.generators[i:] for c in gg.ifs], n))
+  return out
